@@ -400,6 +400,14 @@ struct SlabHarness : HarnessBase {
 				fails_used++;
 				if(poisoning && g_poison_first) for(auto &b : live) check_unpoisoned(b);
 				if(p) fail(g_fail_prop, "alloc-nonnull-after-map-failure", "allocate returned a block although map() failed");
+				// "the pool keeps working": a request that a free object of its class can serve does not need map() at all, so a
+				// failing map() must not make it fail (the policy's re-entrant free, if any, happens inside map() and does not count)
+				if((req ? req : 1) <= max_small && !PS.reentered) {
+					size_t cls = 0; for(auto &kv : per_slab) if(kv.first >= (req ? req : 1)) { cls = kv.first; break; }
+					size_t live_in_class = 0; for(auto &b : live) if(b.size == cls && !b.large) live_in_class++;
+					if(live_in_class < (size_t)slabs_of[cls] * per_slab[cls])
+						fail(g_fail_prop, "alloc-failed-although-free-object", "allocate(" + std::to_string(req) + ") asked map() for memory and failed although " + std::to_string(slabs_of[cls]) + " slab(s) of class " + std::to_string(cls) + " hold only " + std::to_string(live_in_class) + " live blocks");
+				}
 				fails_used--; std::string after; canon(after); fails_used++;
 				if(after != canon_before) fail(g_fail_prop, "state-changed-after-failed-alloc", "pool state / mapped regions / page counter differ after an allocation that failed in map()");
 				verify_patterns("failed-alloc");
@@ -407,6 +415,7 @@ struct SlabHarness : HarnessBase {
 			}
 			// the op did not need to map: behaves like the ordinary op (counted as no deviation)
 		}
+		if(!p && via_realloc) fail("C02", "realloc-null-not-allocate", "realloc(nullptr, " + std::to_string(req) + ") returned null although map() did not fail: (null, n) is allocate(n)");
 		if(!p) fail("C01", "null-without-failure", "allocate returned null although map() did not fail");
 		check_new_block((uintptr_t)p, req, (size_t)-1);
 		Block b{(uintptr_t)p, req, p_get_size(p), p_get_size(p) > max_small};
@@ -512,8 +521,17 @@ struct SlabHarness : HarnessBase {
 		if((uintptr_t)r == old.p) {
 			if(PS.returned.size() || PS.taken.size()) fail("C02", "realloc-inplace-mapped", "an in-place realloc mapped or unmapped memory");
 			size_t gs = p_get_size(r);
-			if(gs != old.size) fail("C01", "size-changed", "get_size() of a live block changed across an in-place realloc");
-			if(gs < n) fail("C01", "too-small", "in-place realloc result is smaller than requested");
+			// When this process checks C02 or C03, a reported-size finding (C01's) is noted on the side and the history goes on as
+			// long as that is safe for the harness (the requested bytes are mapped and collide with nothing): otherwise what the
+			// same defect does to contents or accounting a step later would never be looked at.
+			bool safe = region_of((uintptr_t)r, n) != nullptr;
+			for(size_t bi = 0; bi < live.size(); bi++) if(bi != i && (uintptr_t)r < live[bi].p + live[bi].size && live[bi].p < (uintptr_t)r + n) safe = false;
+			auto c01 = [&](const char *sig, const char *msg) {
+				if(!safe || wanted_prop().empty() || wanted_prop() == "C01") fail("C01", sig, msg);
+				if(side_violations().size() < 64) side_violations().push_back(Violation{"C01", std::string("slab:") + sig, msg});
+			};
+			if(gs != old.size) c01("size-changed", "get_size() of a live block changed across an in-place realloc");
+			if(gs < n) c01("too-small", "in-place realloc result is smaller than requested");
 			for(size_t k = 0; k < keep; k++) if(((unsigned char *)r)[k] != pat(old.p + k)) fail("C02", "realloc-content", "in-place realloc changed the first min(old,new) bytes");
 			live[i].req = n;
 			if(poisoning) check_unpoisoned(live[i]);
@@ -597,6 +615,8 @@ using CfgOdd    = ArenaPolicy<4096, 7 * 4096, 8 * 4096, 11, true, true>; // slab
 using CfgPageSb = ArenaPolicy<1024, 1024, 1024, 6, true, true>;         // superblock == slab == page: large blocks are superblock-aligned
 using CfgDefA   = ArenaPolicy<4096, 1 << 18, 1 << 18, 13, true, true>;   // defaults
 using CfgDefU   = ArenaPolicy<4096, 1 << 18, 1 << 18, 13, false, false>;
+using CfgBigPgA = ArenaPolicy<16384, 1 << 18, 1 << 18, 13, true, true>;   // a page size above 4 KiB (AArch64 16K/64K): what is written as 0x1000 instead of the page size shows
+using CfgBigPgU = ArenaPolicy<16384, 1 << 18, 1 << 18, 13, false, false>;
 
 template<class Cfg>
 static Instance slab_inst(const std::string &name, int L, size_t skew, int fails, std::vector<size_t> sizes, int depth = 1 << 30, bool reentrant = false, bool facade = false) {
@@ -640,6 +660,7 @@ static Instance sweep_inst(const std::string &name, size_t skew, bool thorough, 
 				E.eval("base" + std::to_string(base) + " alloc/free size=" + std::to_string(sz), "slab.sweep-allocate", [&] {
 					bad = true;
 					h.do_alloc(sz, false, -1); h.check_state(); h.do_free((uint32_t)h.live.size() - 1, sz & 1); h.check_state();
+					if(sz <= 16 || sz % 5 == 0) { h.do_alloc(sz, true, -1); h.check_state(); h.do_free((uint32_t)h.live.size() - 1, !(sz & 1)); h.check_state(); }   // the same through realloc(nullptr, sz)
 					bad = false;
 				});
 				if(bad) build();
@@ -649,7 +670,14 @@ static Instance sweep_inst(const std::string &name, size_t skew, bool thorough, 
 				bool bad = false;
 				E.eval("base" + std::to_string(base) + " realloc " + std::to_string(o) + "->" + std::to_string(n), "slab.sweep-realloc", [&] {
 					bad = true;
-					h.do_alloc(o, false, -1); h.do_realloc((uint32_t)h.live.size() - 1, n, -1); h.check_state(); h.do_free((uint32_t)h.live.size() - 1, false); h.check_state();
+					h.do_alloc(o, false, -1); h.do_realloc((uint32_t)h.live.size() - 1, n, -1); h.check_state();
+					// and once more, to a size that certainly moves the block: what the first realloc left behind (a stale length, a
+					// block grown or shrunk in place) decides how much the second one copies
+					// a block shrunk in place is first grown back, in place, to exactly its former page-rounded size (the whole area
+					// must be unpoisoned again), ...
+					if(n && n < o) { size_t back = (o + Cfg::pagesize - 1) / Cfg::pagesize * Cfg::pagesize; h.do_realloc((uint32_t)h.live.size() - 1, back, -1); h.check_state(); h.do_realloc((uint32_t)h.live.size() - 1, n, -1); h.check_state(); }
+					if(n) { h.do_realloc((uint32_t)h.live.size() - 1, n + 3 * Cfg::sb_size + Cfg::pagesize + 1, -1); h.check_state(); }
+					h.do_free((uint32_t)h.live.size() - 1, false); h.check_state();
 					bad = false;
 				});
 				if(bad) build();
@@ -762,6 +790,7 @@ static std::vector<Instance> instances(const std::string &tier) {
 			std::string bs = "-base" + std::to_string(b);
 			IN3(v.push_back(sweep_inst<CfgDefA>("sweep-defaultA" + bs, 0, th, b));)
 			IN3(v.push_back(sweep_inst<CfgDefU>("sweep-defaultU-skew4096" + bs, 4096, th, b));)
+			if(b == 0 || th) { IN2(v.push_back(sweep_inst<CfgBigPgA>("sweep-page16k-A" + bs, 0, th, b));) IN1(v.push_back(sweep_inst<CfgBigPgU>("sweep-page16k-U-skew16384" + bs, 16384, th, b));) }
 			IN2(v.push_back(sweep_inst<CfgOdd>("sweep-odd" + bs, 0, th, b));)
 			IN2(v.push_back(sweep_inst<CfgPageSb>("sweep-pagesb" + bs, 0, th, b));)
 			IN0(v.push_back(sweep_inst<CfgTinyA>("sweep-tinyA" + bs, 0, th, b));)
